@@ -157,10 +157,10 @@ def switch_cond(body, prog, b):
 def enum_paths(body, prog, start=0, limit=20000, stop_at=None):
     """Enumerate acyclic paths from `start` to a return (or `stop_at` blocks)."""
     out = []
-    stack = [(start, (), (), None)]
+    stack = [(start, (), (), None, ())]
     n = 0
     while stack:
-        b, blocks, events, ret = stack.pop()
+        b, blocks, events, ret, known = stack.pop()
         n += 1
         if n > limit:
             out.append(Path(blocks, events, "limit", ret))
@@ -176,8 +176,14 @@ def enum_paths(body, prog, start=0, limit=20000, stop_at=None):
                 ev.append(("assign", b, s))
                 if s["a"]["l"] == 0 and not s["a"]["p"]:
                     ret = ("rv", s["rv"])
+                if known:
+                    # what is known about the discriminant of a place is forgotten when its local is written; a fresh
+                    # `_n = discriminant(place)` (an `if x == K` chain re-reads it) keeps the knowledge about `place`
+                    known = tuple(kv for kv in known if kv[0][0] != s["a"]["l"])
         t = bb["term"]
         k = t["k"]
+        if k == "call" and known and t.get("dest") is not None:
+            known = tuple(kv for kv in known if kv[0][0] != t["dest"]["l"])
         if stop_at and b in stop_at:
             out.append(Path(blocks, tuple(ev), "stop", ret))
             continue
@@ -190,15 +196,28 @@ def enum_paths(body, prog, start=0, limit=20000, stop_at=None):
             if t["t"] is None:
                 out.append(Path(blocks, tuple(ev), "diverge", ret))
             else:
-                stack.append((t["t"], blocks, tuple(ev), ret))
+                stack.append((t["t"], blocks, tuple(ev), ret, known))
         elif k == "switch":
             cond = switch_cond(body, prog, b)
             arms = t["arms"]
+            # two tests of the discriminant of one (unchanged) place on one path agree with each other
+            key = None
+            if cond.kind == "discr" and isinstance(cond.data[0], dict) and "l" in cond.data[0]:
+                key = (cond.data[0]["l"], json.dumps(cond.data[0].get("p")))
+            kn = dict(known).get(key) if key is not None else None
             for val, tgt in arms:
-                stack.append((tgt, blocks, tuple(ev) + (("branch", b, cond, val),), ret))
-            stack.append((t["else"], blocks, tuple(ev) + (("branch", b, cond, ("else", tuple(a[0] for a in arms))),), ret))
+                if kn is not None and ((kn[0] == "eq" and kn[1] != val) or (kn[0] == "ne" and val in kn[1])):
+                    continue
+                k2 = known if key is None else tuple(kv for kv in known if kv[0] != key) + ((key, ("eq", val)),)
+                stack.append((tgt, blocks, tuple(ev) + (("branch", b, cond, val),), ret, k2))
+            if not (kn is not None and kn[0] == "eq" and kn[1] in [a[0] for a in arms]):
+                k2 = known
+                if key is not None and not (kn is not None and kn[0] == "eq"):
+                    excl = (kn[1] if kn is not None else frozenset()) | frozenset(a[0] for a in arms)
+                    k2 = tuple(kv for kv in known if kv[0] != key) + ((key, ("ne", excl)),)
+                stack.append((t["else"], blocks, tuple(ev) + (("branch", b, cond, ("else", tuple(a[0] for a in arms))),), ret, k2))
         elif k in ("goto", "drop", "assert"):
-            stack.append((t["t"], blocks, tuple(ev), ret))
+            stack.append((t["t"], blocks, tuple(ev), ret, known))
         else:
             out.append(Path(blocks, tuple(ev), "diverge", ret))
     return out
